@@ -101,7 +101,7 @@ partial def canon : Fmt → Val → Val
     let vs' := vs.map (canon f)
     .list (if m then vs'.foldr insertByKey [] else vs')
   | .opt _ _ f, .some x => .some (canon f x)
-  | .tailIf a _ _, .pair x y => .pair (canon a x) y
+  | .tailIf _ a _ _, .pair x y => .pair (canon a x) y
   | _, v => v
 
 def showDec (total : Nat) : Option (Val × List Nat) → String
